@@ -99,8 +99,10 @@ def nearbyIdents (periodic : Bool) (perSide : List Int) (layers : Int) (ident : 
   else (product (windows ident layers)).filter (fun t => validIdent t perSide)
 
 /-- identifier with entry `dir` replaced by `f` of it -/
-def modifyDir (ident : List Int) (dir : Nat) (f : Int → Int) : List Int :=
-  ident.mapIdx (fun idx v => if idx = dir then f v else v)
+def modifyDir : List Int → Nat → (Int → Int) → List Int
+  | [], _, _ => []
+  | v :: vs, 0, f => f v :: vs
+  | v :: vs, d + 1, f => v :: modifyDir vs d f
 
 /-- identifier selected by `neighbor_cell` (`none` = the method returns `None`) -/
 def neighborIdent (periodic : Bool) (perSide : List Int) (ident : List Int) (dir : Nat) (positive : Bool) :
@@ -172,12 +174,17 @@ def upperPos (o : Ops α) (st : Stepper α) (fuel : Nat) (side : α) (i : Int) :
 
 /-- the `for index in range(dimension)` loop computing `cell_min`, `cell_max` -/
 def extents (o : Ops α) (st : Stepper α) (fuel : Nat) : List α → List Int → Except String (List α × List α)
-  | s :: ss, i :: is => do
-    let lo ← lowerPos o st fuel s i
-    let hi ← upperPos o st fuel s i
-    let (los, his) ← extents o st fuel ss is
-    pure (lo :: los, hi :: his)
-  | _, _ => pure ([], [])
+  | s :: ss, i :: is =>
+    match lowerPos o st fuel s i with
+    | .error e => .error e
+    | .ok lo =>
+      match upperPos o st fuel s i with
+      | .error e => .error e
+      | .ok hi =>
+        match extents o st fuel ss is with
+        | .error e => .error e
+        | .ok (los, his) => .ok (lo :: los, hi :: his)
+  | _, _ => .ok ([], [])
 
 /-- `Cell.__init__`: `ConfigurationError` if `cell_min[d] >= cell_max[d]` for some direction -/
 def mkCell (ident : List Int) (lo hi : List α) : Except String (Cell α) :=
@@ -188,13 +195,19 @@ def mkCell (ident : List Int) (lo hi : List α) : Except String (Cell α) :=
 the loop variable, `ident` is `cell_identifier_list` -/
 def buildCells (o : Ops α) (st : Stepper α) (fuel : Nat) (perSide : List Int) (side : List α) (cp : List Int) :
     Nat → Int → List Int → Except String (List (Cell α))
-  | 0, _, _ => pure []
-  | k + 1, summed, ident => do
-    if summed != dot ident cp then throw "AssertionError"
-    let (lo, hi) ← extents o st fuel side ident
-    let c ← mkCell ident lo hi
-    let rest ← buildCells o st fuel perSide side cp k (summed + 1) (incr perSide ident)
-    pure (c :: rest)
+  | 0, _, _ => .ok []
+  | k + 1, summed, ident =>
+    -- `assert summed_cell_identifier == sum(ident[d] * cumulative_product[d])`
+    if summed != dot ident cp then .error "AssertionError"
+    else match extents o st fuel side ident with
+      | .error e => .error e
+      | .ok (lo, hi) =>
+        match mkCell ident lo hi with
+        | .error e => .error e
+        | .ok c =>
+          match buildCells o st fuel perSide side cp k (summed + 1) (incr perSide ident) with
+          | .error e => .error e
+          | .ok rest => .ok (c :: rest)
 
 structure System (α : Type) where
   periodic : Bool
@@ -205,23 +218,39 @@ structure System (α : Type) where
   cumProd : List Int
   cells : Array (Cell α)
 
+/-- `[cells_per_side[i] if i < len(cells_per_side) else cells_per_side[0] for i in range(dimension)]` -/
+def expandPerSide (dim : Nat) (cellsPerSide : List Int) : List Int :=
+  (List.range dim).map (fun i => if i < cellsPerSide.length then cellsPerSide.getD i 0 else cellsPerSide.getD 0 0)
+
 /-- `CuboidCells.__init__` / `CuboidPeriodicCells.__init__` (`lengths = setting.system_lengths`,
 `dimension = lengths.length`).  Cell counts `≤ 0` are outside the modelled domain. -/
 def create (o : Ops α) (st : Stepper α) (fuel : Nat) (periodic : Bool) (lengths : List α)
-    (cellsPerSide : List Int) (layers : Int) : Except String (System α) := do
+    (cellsPerSide : List Int) (layers : Int) : Except String (System α) :=
   let dim := lengths.length
   -- `if not 0 < len(cells_per_side) <= setting.dimension`
-  if !(0 < cellsPerSide.length && cellsPerSide.length ≤ dim) then throw "ConfigurationError"
+  if !(0 < cellsPerSide.length && cellsPerSide.length ≤ dim) then .error "ConfigurationError"
   -- `if not neighbor_layers >= 0`
-  if !(layers ≥ 0) then throw "ConfigurationError"
-  let perSide := (List.range dim).map (fun i => if i < cellsPerSide.length then cellsPerSide.getD i 0
-                                                 else cellsPerSide.getD 0 0)
-  if perSide.any (fun n => n ≤ 0) then throw "unmodelled:cells_per_side<=0"
-  let side := List.zipWith (fun l n => l / o.ofInt n) lengths perSide
-  let cp := cumProdFrom 1 perSide
-  let number := numberOfCells perSide
-  let cells ← buildCells o st fuel perSide side cp number.toNat 0 (List.replicate dim 0)
-  pure ⟨periodic, lengths, perSide, layers, side, cp, cells.toArray⟩
+  else if !(layers ≥ 0) then .error "ConfigurationError"
+  else
+    let perSide := expandPerSide dim cellsPerSide
+    if perSide.any (fun n => n ≤ 0) then .error "unmodelled:cells_per_side<=0"
+    else
+      let side := List.zipWith (fun l n => l / o.ofInt n) lengths perSide
+      let cp := cumProdFrom 1 perSide
+      match buildCells o st fuel perSide side cp (numberOfCells perSide).toNat 0 (List.replicate dim 0) with
+      | .error e => .error e
+      | .ok cells => .ok ⟨periodic, lengths, perSide, layers, side, cp, cells.toArray⟩
+
+/-- `Except` version of `[f(x) for x in l]` (first error wins) -/
+def mapE {β γ : Type} (f : β → Except String γ) : List β → Except String (List γ)
+  | [] => .ok []
+  | x :: xs =>
+    match f x with
+    | .error e => .error e
+    | .ok y =>
+      match mapE f xs with
+      | .error e => .error e
+      | .ok ys => .ok (y :: ys)
 
 variable (o : Ops α) (s : System α)
 
@@ -230,7 +259,7 @@ def cellOfIdent (ident : List Int) : Except String (Cell α) := pyGet s.cells (d
 
 /-- `_yield_nearby_cells(cell)` as a list in generation order (`nearby_cells(cell)` is its set) -/
 def nearby (c : Cell α) : Except String (List (Cell α)) :=
-  (nearbyIdents s.periodic s.perSide s.layers c.ident).mapM (cellOfIdent s)
+  mapE (cellOfIdent s) (nearbyIdents s.periodic s.perSide s.layers c.ident)
 
 /-- `neighbor_cell(cell, direction, positive)` -/
 def neighbor (c : Cell α) (dir : Int) (positive : Bool) : Except String (Option (Cell α)) :=
@@ -238,7 +267,10 @@ def neighbor (c : Cell α) (dir : Int) (positive : Bool) : Except String (Option
   if !(0 ≤ dir && dir < (s.lengths.length : Int)) then .error "AssertionError"
   else match neighborIdent s.periodic s.perSide c.ident dir.toNat positive with
     | none => .ok none
-    | some t => (cellOfIdent s t).map some
+    | some t =>
+      match cellOfIdent s t with
+      | .error e => .error e
+      | .ok c' => .ok (some c')
 
 /-- `CuboidCells.position_to_cell` -/
 def positionToCell (pos : List α) : Except String (Cell α) :=
